@@ -112,15 +112,16 @@ def corpus(tier):
 
 def bounds(tier):
     _install()
-    return {"corpus": len(corpus(tier)), "schedule_deviations": "1 site" if tier == "quick" else "1 occurrence, 2 sites", "history_depth": 2 if tier == "quick" else 3,
+    return {"corpus": len(corpus(tier)), "schedule_deviations": "1 site" if tier == "quick" else "1 site (all programs), 1 occurrence (cap 8; first and swapped variants), 2 sites (first variant)", "history_depth": 2 if tier == "quick" else 3,
             "history_alphabet": 16 if tier == "quick" else 20, "seeds": 8 if tier == "quick" else 32,
             "harvested_programs": len(__import__("props.c10_harvest", fromlist=["x"]).hcorpus()), "harvested_schedules": "1 site (rev)" if tier == "quick" else "1 site (rev, rot1, swap01)",
-            "harvested_seeds": 6 if tier == "quick" else 24, "harvested_histories": "corpus in order, in reverse order" + ("" if tier == "quick" else ", every program first and then the corpus in order")}
+            "harvested_seeds": 6 if tier == "quick" else 24, "harvested_histories": "corpus in order, in reverse order" + ("" if tier == "quick" else ", and in order starting at every 12th program (wrapping around)")}
 
 
 def units(tier):
     n = len(corpus(tier))
-    u = [("sched", tier, i) for i in range(n)]
+    # quick: schedules for the first and the swapped variant of every template (the second variant only changes the type vocabulary); thorough: all three
+    u = [("sched", tier, i) for i in range(n) if tier == "thorough" or i >= NV * len(TEMPLATES) or i % NV == 0]
     k = 16 if tier == "quick" else 20
     u += [("hist", tier, i) for i in range(k)]
     u += [("seeds", tier, 0), ("typing", tier, 0)]
@@ -133,7 +134,7 @@ def units(tier):
     u += [("hseeds", tier, 0)]
     u += [("hhist", tier, -1), ("hhist", tier, -2)]
     if tier == "thorough":
-        u += [("hhist", tier, i) for i in range(0, n, HH_STEP)]
+        u += [("hhist", tier, i) for i in range(HH_ROT, n, HH_ROT * HH_STEP)]
     return u
 
 
@@ -192,13 +193,14 @@ def _sched(res, tier, pi, only=None):
         pols = ["rev"] if n == 2 else (["rev", "rot1", "rot2"] if n <= 4 else ["rev", "rot1", "rot2", "rot3", "swap01"])
         for pol in pols:
             deviations.append({site: pol} if True else None)
-            if tier == "thorough" and pol == "rev":
-                # single-occurrence deviations (reversal only): the first 20 dynamic occurrences of each site
-                for k in range(min(sites[site], 20)):
+            if tier == "thorough" and pol == "rev" and (pi >= NV * len(TEMPLATES) or pi % NV == 0):
+                # single-occurrence deviations (reversal only): the first 8 dynamic occurrences of each site (first and swapped variant of each template)
+                for k in range(min(sites[site], 8)):
                     deviations.append({(site, k): pol})
-                if sites[site] > 20:
-                    res.extra["sites_with_more_than_20_occurrences"] += 1
-    if tier == "thorough":
+                if sites[site] > 8:
+                    res.extra["sites_with_more_than_8_occurrences"] += 1
+    if tier == "thorough" and pi < NV * len(TEMPLATES) and pi % NV == 0:
+        # every pair of deviating sites (first variant of each template)
         ss = sorted(sites, key=str)
         for a, b in itertools.combinations(ss, 2):
             deviations.append({a: "rev", b: "rev"})
@@ -403,7 +405,8 @@ def _seeds(res, tier, only=None):
 
 
 HS_STEP = 30
-HH_STEP = 12
+HH_ROT = 12      # thorough: one history starting at every 12th program of the harvested corpus
+HH_STEP = 6      # rotations per unit
 
 
 def run_unit(unit):
@@ -417,7 +420,7 @@ def run_unit(unit):
             hv.hseeds(res, tier)
         else:
             _install()
-            hv.hhist(res, tier, [i] if i < 0 else range(i, min(i + HH_STEP, len(hv.hcorpus()))), _in_child)
+            hv.hhist(res, tier, [i] if i < 0 else range(i, min(i + HH_ROT * HH_STEP, len(hv.hcorpus())), HH_ROT), _in_child)
         return res
     if kind == "typing":
         _typing_cache(res)
